@@ -117,6 +117,8 @@ class PtypeHooks(Hooks):
             it.probe('check:refusal_atomic')
             if tag.get('after_transition'):
                 it.probe('refuse_after_transition')
+            if tag.get('reassigned_plane'):
+                it.probe('refuse_after_attribute_update')
             if it.dig(w) != dw:
                 it.violate('C08.refusal_atomic', {'fn': fn, 'operand': 'wavefront', 'exc': type(out.exc).__name__},
                            'wavefront changed by a refused %s' % fn, i)
@@ -154,7 +156,7 @@ class PtypeScenario(Scenario):
         self.must_hit = cells + props + ['refuse_after_transition', 'class:Pupilxnone', 'class:Pupilxpupil',
                                          'class:Imagexnone', 'class:Imageximage', 'class:Tiltxpupil', 'class:Tiltximage',
                                          'class:DispersiveTiltxpupil', 'class:Rotatexpupil', 'class:Flipxpupil', 'explicit_ptype_kw',
-                                         'wavefront_constructor_arguments']
+                                         'wavefront_constructor_arguments', 'refuse_after_attribute_update']
         self.probe_names = self.must_hit + ['coldwarm_audit']
 
     @property
@@ -172,6 +174,7 @@ class PtypeScenario(Scenario):
         dx = wl * f / (du * n0)
         shapes = {'S0': [rng.randint(3, 10), rng.randint(3, 10)], 'S1': [rng.randint(2, 9), rng.randint(2, 9)]}
         return {'shapes': shapes, 'cache': rng.choice([32, 32, 0, 1, 2]), 'rng_seed': rng.randrange(2 ** 31),
+                'geoms': [[rng.choice([1, 2]), rng.randint(2, 8), rng.choice([0, 1])] for _ in range(2)],
                 'phys': {'wl': wl, 'du': du, 'f': f, 'dx': dx, 'n0': n0}}
 
     def setup_events(self, world, rng):
@@ -190,6 +193,8 @@ class PtypeScenario(Scenario):
         add('array', 'a0', recipe={'kind': 'uniform', 'shape': 'S0', 'lo': 0.5, 'hi': 1.0, 'seed': rng.randrange(10 ** 6)})
         add('array', 'o0', recipe={'kind': 'normal', 'shape': 'S0', 'sigma': 2e-8, 'seed': rng.randrange(10 ** 6)})
         add('array', 'a1', recipe={'kind': 'uniform', 'shape': 'S1', 'lo': 0.5, 'hi': 1.0, 'seed': rng.randrange(10 ** 6)})
+        add('array', 'a0z', recipe={'kind': 'mul', 'x': {'kind': 'uniform', 'shape': 'S0', 'lo': 0.5, 'hi': 1.0, 'seed': rng.randrange(10 ** 6)},
+                                    'y': {'kind': 'rect', 'shape': 'S0', 'half': [0, 1], 'dr': -1, 'dc': 0, 'degenerate_ok': True}})
         for pt in PTYPES:
             add('Plane', 'g_' + pt, k={'ptype': pt})
         add('Pupil', 'PUP', k={'amplitude': '@a0', 'opd': '@o0', 'pixelscale': ph['dx'], 'focal_length': ph['f']})
@@ -307,10 +312,9 @@ class PtypeScenario(Scenario):
         tag = dict(tag or {})
         res = None
         if w['t'] == 'pupil' or not can:
-            os_ = rng.choice([1, 2])
-            n = rng.randint(2, 8)
+            os_, n, extra = rng.choice(world['geoms']) if world.get('geoms') and rng.random() < 0.7 else (rng.choice([1, 2]), rng.randint(2, 8), rng.choice([0, 1]))
             if method == 'propagate_dft':
-                k = {'pixelscale': ph['du'], 'shape': [n, n + rng.choice([0, 1])], 'oversample': os_}
+                k = {'pixelscale': ph['du'], 'shape': [n, n + extra], 'oversample': os_}
                 shape = (k['shape'][0] * os_, k['shape'][1] * os_)
             else:
                 k = {'pixelscale': ph['du'], 'oversample': os_}
@@ -323,7 +327,7 @@ class PtypeScenario(Scenario):
         else:
             pin = w['px'][0]
             if method == 'propagate_dft':
-                n = rng.randint(2, 8)
+                n = rng.choice(world['geoms'])[1] if world.get('geoms') and rng.random() < 0.7 else rng.randint(2, 8)
                 k = {'pixelscale': ph['dx'], 'shape': [n, n], 'oversample': 1}
                 shape = (n, n)
                 px = (ph['dx'], ph['dx'])
@@ -374,6 +378,18 @@ class PtypeScenario(Scenario):
                     ev = self.illegal_event(rng, world, c, w, P, pids, new_id, None)
                     if ev is not None:
                         prog.append(ev)
+                    continue
+                if rng.random() < 0.06:
+                    # the caller builds a plane of its own without mask=, assigns it another amplitude (other support), and the next
+                    # product is one that must be refused: both operands -- the re-assigned plane included -- stay as they were
+                    pid_ = 'c%d_p%d' % (c, counter)
+                    prog.append({'c': c, 'fn': rng.choice(['Plane', 'Pupil']), 'id': pid_, 'k': {'amplitude': '@a0z', 'pixelscale': world['phys']['dx']}})
+                    ptype_ = 'pupil' if prog[-1]['fn'] == 'Pupil' else 'none'
+                    prog.append({'c': c, 'fn': 'setattr', 'a': ['@' + pid_, 'amplitude', '@a0'], 'id': pid_ + 's'})
+                    bad_w = [x for x in ws if self.doc.result(x['t'], ptype_) is None or not self.px_ok(x, {'px': (world['phys']['dx'] * 1.0,) * 2})]
+                    if bad_w:
+                        counter += 1
+                        prog.append(self.mul_event(rng, c, rng.choice(bad_w), pid_, 'c%d_%d' % (c, counter), {'reassigned_plane': True}))
                     continue
                 if rng.random() < 0.08:
                     cp = dict(w, id=new_id)
@@ -487,6 +503,9 @@ class PtypeScenario(Scenario):
             events.append({'c': 0, 'fn': 'deepcopy', 'a': ['@' + res['id']], 'id': 'cic_' + meth, 't': {'copy': True}})
             ev2, _ = self.prop_event(rng, world, 0, dict(res, id='cic_' + meth), 'cpu_' + meth, method='propagate_dft')
             events.append(ev2)
+        events.append({'c': 0, 'fn': 'Pupil', 'id': 'pz', 'k': {'amplitude': '@a0z', 'pixelscale': world['phys']['dx']}})
+        events.append({'c': 0, 'fn': 'setattr', 'a': ['@pz', 'amplitude', '@a0'], 'id': 'pzs'})
+        events.append({'c': 0, 'fn': 'Plane.multiply', 'a': ['@pz', '@w_image'], 'id': 'pz_bad', 't': {'reassigned_plane': True}})
         # a wavefront that already carries a focal length meets pupils with other focal lengths, then propagates
         events.append({'c': 0, 'fn': 'Plane.multiply', 'a': ['@PUP2', '@pu'], 'id': 'pu2'})
         events.append({'c': 0, 'fn': 'w*p', 'a': ['@pu2', '@PUPS2'], 'id': 'pu3'})
